@@ -27,14 +27,23 @@ KB = {
 AMU_IN_ME = 1822.888486209
 
 
-def build(name):
-    """Returns (engine, initial configuration file, info dict with masses/temperature in engine units)."""
+HETERO = [1.008, 15.999]      # unequal masses (amu): momentum removal has to be mass weighted
+
+
+def build(name, hetero=False, work=None):
+    """Returns (engine, initial configuration file, info dict with masses/temperature in engine units).
+
+    hetero: give the two atoms unequal masses (through the engine's own way of learning masses where
+    that is an input, otherwise by setting the attribute the engine reads)."""
     import tomli
+    amu = np.array(HETERO if hetero else [1.008, 1.008])
     if name == "turtlemd":
         from infretis.classes.engines.factory import create_engine
         ip = os.path.join(EX, "turtlemd", "H2")
         with open(os.path.join(ip, "infretis.toml"), "rb") as fh:
             cfg = tomli.load(fh)
+        if hetero:
+            cfg["engine"]["particles"]["mass"] = [1.0, 3.0]
         eng = create_engine(cfg)
         mass = np.array(cfg["engine"]["particles"]["mass"], dtype=float)
         info = {"kbt": cfg["engine"]["boltzmann"] * cfg["engine"]["temperature"], "mass": mass, "vfac": 1.0}
@@ -43,19 +52,23 @@ def build(name):
         from infretis.classes.engines.lammps import LAMMPSEngine
         ip = os.path.join(EX, "lammps", "H2", "lammps_input")
         eng = LAMMPSEngine("lmp_mpi", ip, 0, 0, 300)
-        info = {"kbt": KB["lammps"] * 300, "mass": np.array([1.008, 1.008]), "vfac": 1.0 / 48.88821290839617}
+        if hetero:
+            eng.mass = amu.reshape(-1, 1).copy()
+        info = {"kbt": KB["lammps"] * 300, "mass": amu, "vfac": 1.0 / 48.88821290839617}
         return eng, os.path.join(ip, f"conf.{eng.ext}"), info
     if name == "gromacs":
         from infretis.classes.engines.gromacs import GromacsEngine
         ip = os.path.join(EX, "gromacs", "H2", "gromacs_input")
-        eng = GromacsEngine("echo", ip, 0, 0, 300, masses=[1.008, 1.008], infretis_genvel=True)
-        info = {"kbt": KB["gromacs"] * 300, "mass": np.array([1.008, 1.008]), "vfac": 1.0}
+        eng = GromacsEngine("echo", ip, 0, 0, 300, masses=[float(m) for m in amu], infretis_genvel=True)
+        info = {"kbt": KB["gromacs"] * 300, "mass": amu, "vfac": 1.0}
         return eng, os.path.join(ip, f"conf.{eng.ext}"), info
     if name == "cp2k":
         from infretis.classes.engines.cp2k import CP2KEngine
         ip = os.path.join(EX, "cp2k", "H2", "cp2k_input")
         eng = CP2KEngine("cp2k", ip, 1, 1, 300)
-        info = {"kbt": KB["cp2k"] * 300, "mass": np.array([1.008, 1.008]) * AMU_IN_ME, "vfac": 1.0}
+        if hetero:
+            eng.mass = (amu * AMU_IN_ME).reshape(-1, 1)
+        info = {"kbt": KB["cp2k"] * 300, "mass": amu * AMU_IN_ME, "vfac": 1.0}
         return eng, os.path.join(ip, f"conf.{eng.ext}"), info
     if name == "ase":
         from infretis.classes.engines.factory import create_engine
@@ -64,17 +77,26 @@ def build(name):
             cfg = tomli.load(fh)
         cfg["engine"]["calculator_settings"]["module"] = os.path.join(ip, "H2-calc.py")
         eng = create_engine(cfg)
-        info = {"kbt": KB["ase"] * cfg["engine"]["temperature"], "mass": np.array([1.008, 1.008]), "vfac": 1.0}
-        return eng, os.path.join(ip, f"conf.{eng.ext}"), info
+        info = {"kbt": KB["ase"] * cfg["engine"]["temperature"], "mass": amu, "vfac": 1.0}
+        conf = os.path.join(ip, f"conf.{eng.ext}")
+        if hetero:
+            import ase.io
+            atoms = ase.io.read(conf)
+            atoms.set_masses(HETERO)
+            conf = os.path.join(work, f"conf_hetero.{eng.ext}")
+            ase.io.write(conf, atoms)
+        return eng, conf, info
     raise ValueError(name)
 
 
 def masses_of(eng, info):
+    """Masses for the bookkeeping clauses: the engine's own table where it has one (atomic-mass tables differ in the 5th digit
+    between programs); with hetero=True that attribute was set from HETERO by build()."""
     for attr in ("mass", "masses"):
         m = getattr(eng, attr, None)
         if m is not None:
             return np.asarray(m, dtype=float).reshape(-1)
-    return info["mass"]
+    return np.asarray(info["mass"], dtype=float).reshape(-1)
 
 
 def read_conf(eng, filename):
